@@ -294,6 +294,18 @@ def run(ctx):
             add('doci_arithmetic', '(pauli_equiv %s %s && fermi_equiv %s %s)' % (coq_qop(r.qubit_operator), qspec, dn(r), fspec), dict(rpd, call='DOCIHamiltonian ' + name), key=(name, repr(rpd)))
         # operands keep their value
         add('doci_arithmetic', '(pauli_equiv %s %s && pauli_equiv %s %s)' % (coq_qop(x.qubit_operator), qx, coq_qop(y.qubit_operator), qy), dict(rpd, call='operands after arithmetic'), key=('after', repr(rpd)))
+        # in-place edits of hc / hr1 / hr2 entries (the way the class asks users to modify it) after the tensors have been read:
+        # tensors and pair-qubit operator must keep denoting the same operator
+        z = of.DOCIHamiltonian.from_integrals(const, np.array(h, dtype=float), np.array(eri, dtype=float))
+        _ = z.n_body_tensors; _ = (z == z)
+        if n >= 1:
+            z.hc[rng.randrange(n)] += 0.5
+            if n >= 2:
+                p_, q_ = rng.sample(range(n), 2); z.hr1[p_, q_] += 0.25; z.hr1[q_, p_] += 0.25; z.hr2[p_, q_] -= 0.5; z.hr2[q_, p_] -= 0.5
+            nbz = z.n_body_tensors
+            parz = spec_poly({(): nbz[()], (1, 0): nbz[(1, 0)], (1, 1, 0, 0): 0.5 * np.asarray(nbz[(1, 1, 0, 0)])})
+            if exact_terms_ok(parz, lo=30) and exact_terms_ok(z.qubit_operator.terms, lo=30):
+                add('doci_inplace_edit', '(doci_ok %s %s %s)' % (cnat(n), coq_qop(z.qubit_operator), coq_fop_terms(parz)), dict(rpd, call='DOCIHamiltonian: hc / hr1 / hr2 entries edited in place after n_body_tensors was read'), key=('edit', repr(rpd)))
         # (DOCIHamiltonian indexing is a view of hc / hr1 / hr2 pinned by the library's own tests, not of n_body_tensors: not judged here)
     res = coq_eval_bools(ctx, 'c08', IMPORTS, items, chunk=30)
     judge(ctx, res, meta, 'C08')
